@@ -48,7 +48,10 @@ package prunner
 //@ pure RIdist(r *PipelineRunner) bool = forall p string :: distinctElems(r.jobsByPipeline[p])
 // time stamps of jobs accepted by this process are ordered along the (monotone) ghost clock
 //@ ghost $accepted array Bool
-//@ pure timesOrdered(j *PipelineJob) bool = j.Created <= $clock && (j.Start != nil ==> j.Created <= *j.Start && *j.Start <= $clock) && (j.End != nil ==> *j.End <= $clock) && (j.End != nil ==> j.Start != nil && *j.Start <= *j.End)
+//@ pure timesOrdered(j *PipelineJob) bool = j.Created <= $clock && (j.Start != nil ==> j.Created <= *j.Start && *j.Start <= $clock) && (j.End != nil ==> *j.End <= $clock) && (j.End != nil ==> j.Start != nil && *j.Start <= *j.End) && delayKept(j)
+// start delay as a lower bound (C07): a pending timer was armed after the job was created, with the job's delay; a
+// waiting job whose timer is gone (fired) has waited its delay; a started job was started after its delay
+//@ pure delayKept(j *PipelineJob) bool = (j.startTimer != nil ==> $armedAt[j.startTimer] >= j.Created && $armedDelay[j.startTimer] == j.StartDelay) && (!j.Canceled && j.StartDelay > 0 && j.startTimer == nil && j.Start == nil ==> j.Created + j.StartDelay <= $clock) && (j.Start != nil && j.StartDelay > 0 ==> j.Created + j.StartDelay <= *j.Start)
 //@ pure RItime(r *PipelineRunner) bool = forall id uuid.UUID :: (id in r.jobsByID) && $accepted[r.jobsByID[id]] ==> timesOrdered(r.jobsByID[id])
 //@ pure RI(r *PipelineRunner) bool = RIbase(r) && RIids(r) && RIwf(r) && RIjobs(r) && RIwl(r) && RIsep(r) && RIreg(r) && RIdist(r) && RItime(r)
 
@@ -299,6 +302,7 @@ package prunner
 //@ func (*PipelineRunner).StartDelayedJob
 //@   safety
 //@   lockmode none
+//@   assumes  [fired] (id in r.jobsByID) && r.jobsByID[id].startTimer != nil ==> $clock >= $armedAt[r.jobsByID[id].startTimer] + $armedDelay[r.jobsByID[id].startTimer]
 //@   ensures  [C03.timerTruth] (id in old(r.jobsByID)) && !old(r.jobsByID[id].Canceled) ==> old(r.jobsByID[id]).startTimer == nil || old(r.jobsByID[id]).Canceled
 //@   ensures  [C03.progress] (id in old(r.jobsByID)) && !old(r.jobsByID[id].Canceled) ==> progress(r, old(r.jobsByID[id]).Pipeline)
 //@   ensures  [unknown] !(id in old(r.jobsByID)) || old(r.jobsByID[id].Canceled) ==> unchangedHeap()
@@ -604,7 +608,7 @@ package prunner
 //@ property C04: prunner.*/assert[C04.*] prunner.*/ensures[C04.*] prunner.(*PipelineRunner).startJob/ensures[skipCanceled] prunner.*/ensures[T] prunner.(*PipelineJob).markAsCanceled/* prunner.*/call-pre[(*PipelineRunner).startJob.*]* prunner/writers[PipelineJob.Canceled] prunner.*/monitor[RI] prunner.*/guarantee[T]
 //@ property C05: prunner.*/ensures[C05.*] prunner.*/monitor[RI] prunner.*/ensures[ri] prunner.*/call-pre[*.ri]* prunner.*/loop*/inv-*[ri] prunner.removeJobFromWaitList/* prunner.(*PipelineRunner).runningJobsCount/* prunner.*/ensures[C15.reject] prunner.*/ensures[C15.accept] lemma/cntFrame* prunner.*/loop*/inv-*[others] prunner.*/loop*/inv-*[mine] prunner.*/loop*/inv-*[purged] prunner.(*PipelineRunner).startJobsOnWaitList/* prunner.(*PipelineRunner).startJob/* prunner.(*PipelineRunner).cancelJobInternal/* prunner.removeJobFromWaitList/* prunner.*/safety prunner.*/assert[wl*] prunner.*/assert[dist*]
 //@ property C06: prunner.*/ensures[C06.*] prunner.(*PipelineRunner).ScheduleAsync/ensures[C05.queue] prunner.(*PipelineRunner).ScheduleAsync/ensures[C05.replace] prunner.(*PipelineRunner).ScheduleAsync/ensures[C05.start] prunner.(*PipelineRunner).startJobsOnWaitList/loop* prunner.*/call-pre[(*PipelineRunner).startJob.offList]* prunner.removeJobFromWaitList/* prunner.*/monitor[RI] prunner.*/ensures[C12.waitLists] prunner.(*PipelineRunner).startJobsOnWaitList/* prunner.(*PipelineRunner).startJob/* prunner.(*PipelineRunner).cancelJobInternal/* prunner.removeJobFromWaitList/* prunner.*/ensures[T] prunner.*/ensures[ri] prunner.*/call-pre[*.ri]* prunner.*/ensures[C12.keepLive]
-//@ property C07: prunner.*/ensures[C07.*] prunner.*/call-pre[(*PipelineRunner).startJob.timerDone]* prunner.*/ensures[C03.timerTruth] prunner.*/ensures[C03.progress] prunner.(*PipelineRunner).ScheduleAsync/ensures[C05.replace] prunner.(*PipelineRunner).startJob/ensures[skipCanceled] prunner.(*PipelineRunner).resolveDequeueJobAction/ensures* prunner/writers[PipelineJob.startTimer] prunner/writers[PipelineJob.StartDelay]
+//@ property C07: prunner.*/ensures[C07.*] prunner.*/call-pre[(*PipelineRunner).startJob.timerDone]* prunner.*/ensures[C03.timerTruth] prunner.*/ensures[C03.progress] prunner.(*PipelineRunner).ScheduleAsync/ensures[C05.replace] prunner.(*PipelineRunner).startJob/ensures[skipCanceled] prunner.(*PipelineRunner).resolveDequeueJobAction/ensures* prunner/writers[PipelineJob.startTimer] prunner/writers[PipelineJob.StartDelay] prunner.*/monitor[RI] prunner.*/ensures[ri] prunner.*/call-pre[*.ri]* prunner/writers[PipelineJob.Created] prunner/writers[PipelineJob.Start]
 //@ property C10: prunner.*/ensures[C10.*] prunner.(*PipelineRunner).initialLoadFromStore/loop* prunner.buildJobFromPersistedJob/* helper.*/ensures* store/globalinit[json] store.(*JsonDataStore).Load/ensures[C09.load] prunner.*/assert[C10.*] prunner.(*PipelineJob).isRunning/ensures* prunner.(*PipelineRunner).SaveToStore/loop3/* prunner.(*PipelineRunner).SaveToStore/loop4/* lemma/cntZero* prunner.(*PipelineRunner).initialLoadFromStore/ensures*
 //@ property C11: prunner.*/ensures[C11.*] prunner.*/assert[C11.*] prunner.(*PipelineRunner).Shutdown/loop* prunner.(*PipelineRunner).Shutdown/monitor[RI] prunner.(*PipelineRunner).Shutdown/ensures[T] prunner.(*PipelineRunner).Shutdown$1/* prunner/writers[PipelineRunner.isShuttingDown] prunner.*/guarantee[gate] prunner.(*PipelineRunner).Shutdown/guarantee[T] prunner/interference[captured] prunner.(*PipelineRunner).Shutdown$1/frame*
 //@ property C12: prunner.*/ensures[C12.*] prunner.(*PipelineRunner).SaveToStore/* prunner.removeJobFromList/* prunner.byCreationTimeDesc/ensures* prunner.*/assert[dist*] prunner.*/monitor[RI] prunner.(*PipelineRunner).determineIfJobShouldBeRemoved/* prunner.*/assert[wl*] prunner.(*PipelineRunner).initialLoadFromStore/*[C10.noLoss]
